@@ -260,7 +260,7 @@ func packageStream(kind, rev string) string {
 	if kind == "function" {
 		b.WriteString("apiVersion: meta.pkg.crossplane.io/v1\nkind: Function\nmetadata:\n  name: " + metaName + "\nspec:\n  image: " + registry + "/org/pkg-runtime:" + rev + "\n")
 	} else {
-		b.WriteString("apiVersion: meta.pkg.crossplane.io/v1\nkind: Provider\nmetadata:\n  name: " + metaName + "\nspec:\n  controller:\n    image: " + registry + "/org/pkg-runtime:" + rev + "\n")
+		b.WriteString("apiVersion: meta.pkg.crossplane.io/v1\nkind: Provider\nmetadata:\n  name: " + metaName + "\nspec:\n  controller:\n    image: " + registry + "/org/pkg-runtime:" + rev + "\n    permissionRequests:\n    - apiGroups: [\"example.org\"]\n      resources: [\"things\"]\n      verbs: [\"get\"]\n")
 	}
 	crd := &extv1.CustomResourceDefinition{TypeMeta: metav1.TypeMeta{APIVersion: "apiextensions.k8s.io/v1", Kind: "CustomResourceDefinition"},
 		ObjectMeta: metav1.ObjectMeta{Name: "things.example.org"},
@@ -324,7 +324,7 @@ func (w *world) mark(actor, what string) {
 
 func newSeen() map[string]any {
 	return map[string]any{"des": "none", "drcRead": false, "dn": "none", "san": "none", "ext": false, "tmpl": "none",
-		"depAvail": "unset", "depVerb": "none", "done": []any{}, "svcName": "none", "established": false, "refs": 0}
+		"depAvail": "unset", "depVerb": "none", "done": []any{}, "svcName": "none", "established": false, "refs": 0, "saFirst": "none"}
 }
 
 func copySeen(m map[string]any) map[string]any {
@@ -529,6 +529,16 @@ func (w *world) objRecord(u *unstructured.Unstructured) map[string]any {
 	return r
 }
 
+func pullSecrets(u *unstructured.Unstructured) []any {
+	ips := []any{}
+	is, _, _ := unstructured.NestedSlice(u.Object, "imagePullSecrets")
+	for _, i := range is {
+		im, _ := i.(map[string]any)
+		ips = append(ips, fmt.Sprintf("%v", im["name"]))
+	}
+	return ips
+}
+
 func healthOf(u *unstructured.Unstructured) string {
 	conds, _, _ := unstructured.NestedSlice(u.Object, "status", "conditions")
 	for _, c := range conds {
@@ -573,13 +583,15 @@ func (w *world) post() map[string]any {
 	revs := []any{}
 	for _, a := range revAliases {
 		u := w.s.Peek(w.revKey(a))
-		r := map[string]any{"r": a, "ex": u != nil, "des": "none", "healthy": "unknown", "endpoint": "", "refs": 0, "del": false}
+		r := map[string]any{"r": a, "ex": u != nil, "des": "none", "healthy": "unknown", "endpoint": "", "refs": 0, "del": false, "perms": 0}
 		if u != nil {
 			r["des"], _, _ = unstructured.NestedString(u.Object, "spec", "desiredState")
 			r["healthy"] = healthOf(u)
 			r["endpoint"], _, _ = unstructured.NestedString(u.Object, "status", "endpoint")
 			refs, _, _ := unstructured.NestedSlice(u.Object, "status", "objectRefs")
 			r["refs"] = len(refs)
+			perms, _, _ := unstructured.NestedSlice(u.Object, "status", "permissionRequests")
+			r["perms"] = len(perms)
 			r["del"] = u.GetDeletionTimestamp() != nil
 		}
 		revs = append(revs, r)
@@ -612,7 +624,7 @@ func (w *world) post() map[string]any {
 func (w *world) emit(ev, actor string, m map[string]any) {
 	base := map[string]any{"ev": ev, "scenario": w.scenID, "kind": w.kind, "actor": actor, "rec": w.recOf[actor], "nested": w.depth > 1,
 		"verb": "", "alias": "none", "tk": "none", "abs": "", "outcome": "", "injected": "", "applied": false, "noop": false, "removed": false,
-		"pre": map[string]any{"ex": false, "ctrl": "none", "selrev": "none"}, "wrote": w.nullObj(),
+		"pre": map[string]any{"ex": false, "ctrl": "none", "selrev": "none", "ips": []any{}}, "wrote": w.nullObj(),
 		"result": "", "faulty": false, "quiet": false, "fix": false, "rounds": 0, "last": map[string]any{"r1": "none", "r2": "none"},
 		"seen": copySeen(w.seen[actor]), "post": w.post()}
 	for k, v := range m {
@@ -761,6 +773,10 @@ func (w *world) onEvent(e *simapi.Event) {
 				refs, _, _ := unstructured.NestedSlice(u.Object, "status", "objectRefs")
 				seen["refs"] = len(refs)
 			}
+		case e.Verb == "get" && e.Kind == "ServiceAccount" && alias != "sa-xp":
+			if seen["saFirst"] == "none" {
+				seen["saFirst"] = e.Outcome // what applySA's own read of the existing ServiceAccount returned
+			}
 		case e.Verb == "get" && alias == "drc" && ok:
 			d := w.drcRecord()
 			seen["drcRead"], seen["dn"], seen["san"], seen["ext"], seen["tmpl"] = true, d["dn"], d["san"], d["ext"], d["tmpl"]
@@ -791,9 +807,15 @@ func (w *world) onEvent(e *simapi.Event) {
 	m := map[string]any{"verb": verb, "alias": alias, "tk": tk, "abs": abs, "outcome": e.Outcome, "injected": e.Injected,
 		"applied": e.Applied && !e.DryRun, "noop": e.Noop, "removed": e.Removed}
 	if e.IsWrite() {
-		pre := map[string]any{"ex": e.PreObj != nil, "ctrl": "none", "selrev": "none"}
+		pre := map[string]any{"ex": e.PreObj != nil, "ctrl": "none", "selrev": "none", "ips": []any{}}
 		if e.PreObj != nil {
 			pre["ctrl"] = w.ctrlAlias(e.PreObj)
+			if e.Kind == "ServiceAccount" {
+				pre["ips"] = pullSecrets(e.PreObj)
+				if e.PostObj != nil && len(pullSecrets(e.PostObj)) < len(pullSecrets(e.PreObj)) {
+					w.tw.Counts["obs:serviceaccount-pull-secrets-dropped(first read: "+fmt.Sprint(seen["saFirst"])+")"]++
+				}
+			}
 			if e.Kind == "Deployment" {
 				pre["selrev"] = w.revAliasOfName(nestedStrMap(e.PreObj.Object, "spec", "selector", "matchLabels")["pkg.crossplane.io/revision"])
 			}
@@ -1132,6 +1154,15 @@ func (w *world) installStart(start string, init map[string]any) {
 	w.setAvail(dep, "true")
 	if _, err := w.rec["r1"].Reconcile(ctx, req); err != nil {
 		panic(fmt.Sprintf("cannot install the start configuration: %v", err))
+	}
+	// an external controller has added an image pull secret to the ServiceAccount the revision created
+	for _, sa := range w.s.All(schema.GroupKind{Kind: "ServiceAccount"}) {
+		if n := sa.GetName(); n != xpSA && n != userSA {
+			w.s.Mutate(simapi.KeyOf(sa), func(u *unstructured.Unstructured) {
+				l, _, _ := unstructured.NestedSlice(u.Object, "imagePullSecrets")
+				_ = unstructured.SetNestedSlice(u.Object, append(l, map[string]any{"name": "ext-pull"}), "imagePullSecrets")
+			})
+		}
 	}
 	if start == "handover" {
 		w.s.Mutate(w.revKey("r1"), func(u *unstructured.Unstructured) {
